@@ -228,6 +228,13 @@ def content_and_type(chk, prog, cfg):
     for b in handler_bodies(prog, cfg):
         fn = b.path
         reads = b.calls_to(r"(Read::read_to_end|AsyncReadExt::read_to_end)$")
+        # "returned intact": a served file is read whole (read_to_end / read_to_string / fs::read); a single read / read_buf / read_exact into
+        # a pre-sized buffer returns what one system call delivers (tokio: at most its 2 MiB chunk), i.e. a prefix, with status 200
+        for blk, t in b.calls():
+            tys = t.get("arg_tys") or []
+            if tys and core.re.search(r"fs::File\b", tys[0]) and core.call_matches(t, r"(Read|AsyncReadExt|AsyncRead|BufRead|AsyncBufReadExt)::(read|read_buf|read_exact|read_vectored|take|fill_buf|read_until|read_line|poll_read)$"):
+                chk.ob("R3.whole_file", fn, "the opened file is read whole (read_to_end / read_to_string)", False,
+                       f"{core.short(t['callee'])} on the opened file returns after one read: a large file is served as a prefix of itself with status 200", where=b.where(blk), cfg=cfg)
         if not reads:
             continue
         for blk, t in reads:
